@@ -89,6 +89,7 @@ CHECKS['C14'] = dict(
 CHECKS['C03']['text'] += ' Object layer (Model/ObjPlan.v): the walk over task objects visits exactly the objects reachable from the requested objects without passing through a task served from the cache, each once, and its quotient by equality is the task-level plan (C03_object_walk_is_task_plan); completing a task marks every visited instance of it and no other object (C03_every_instance_marked); tied by comparing the marks left on real task objects with the model on every generated case.'
 CHECKS['C14']['text'] += ' Also proved: from whatever state the first interrupt leaves, the except-branch starts no worker process and records no submission, however it ends (C14_handler_starts_nothing; refuted for a second handler that stops without cancelling, C14_no_second_cancel_refuted); the number of worker starts of the model is compared with the processes really started in every tick-level run. A single interrupt terminates no worker: stop() is only reachable through a second KeyboardInterrupt (C14_single_interrupt_terminates_no_worker).'
 CHECKS['C01']['text'] += ' The serial backend is proved to refine the abstract runner (C01_serial_refines; Model/Serial.v: oldest submitted task first, one per polling round, no completion oracle), always ends within |plan| rounds and returns the reference values (C01_serial_ends, C01_serial_returns_reference); real serial runs are replayed by that strategy. The process-runner model (Model/Intr.v: executor queue, worker slots, wait() generator protocol, future bookkeeping) is proved to refine the abstract scheduler whenever no interrupt arrives: same returned dict or LabError and same final coordinator state under some completion oracle (C01_process_runner_refines, C01_process_runner_returns_reference).'
+CHECKS['C01']['text'] += ' Executor level (Model/Exec.v, ExecLate.v): workers that deliver their result and exit, or are killed, after the drain of one wait() leave that call unchanged and are seen by the next (C01_worker_finishing_during_wait, for the liveness-snapshot position read from the source; refuted for a snapshot after the drain); the gated-worker harness produces that interleaving and its runs are part of this check.'
 NOT_YET = {}
 
 
